@@ -149,6 +149,31 @@ def lse(vals):
     return m + math.log(sum(math.exp(v - m) for v in vals))
 
 
+def scalar_queries(o, vals, what, fails, rtol=1e-12):
+    """the whole-table reductions of o must describe its CURRENT contents (vals: the expected cell values)"""
+    vals = list(vals)
+    exp = {'sum': math.fsum(vals), 'max': max(vals)}
+    if all(v < 700 for v in vals):
+        exp['logsumexp'] = lse(vals)
+    for nm, e in exp.items():
+        g = getattr(o, nm)()
+        if not same(float(g), e, rtol):
+            fails.append('%s() %s gives %r, the table now holds %r' % (nm, what, float(g), e))
+    ga = o.logsumexp(tuple(o.domain.attrs)) if 'logsumexp' in exp else None
+    if ga is not None and not same(float(ga.values), exp['logsumexp'], rtol):
+        fails.append('logsumexp(all attrs) %s gives %r, expected %r' % (what, float(ga.values), exp['logsumexp']))
+
+
+def queried(domain, fill):
+    """a destination factor that has already answered every whole-table query on other contents"""
+    from mbi import Factor
+    o = Factor(domain, np.full(domain.shape, float(fill)))
+    for nm in ('sum', 'max', 'logsumexp'):
+        getattr(o, nm)()
+    o.logsumexp(tuple(domain.attrs)); o.sum(tuple(domain.attrs)); o.datavector()
+    return o
+
+
 def snapshot(f):
     return (tuple(f.domain.attrs), np.array(f.values, copy=True))
 
@@ -316,6 +341,16 @@ def unary_cases(acc, dom, pat, t1, k, names=None):
             if r_ is not o:
                 fails.append('exp(out=) did not return out')
             cmp_tables(o, set(t1), {a: math.exp(v) if v > -math.inf else 0.0 for a, v in T.items()}, 'exp(out=) on %s' % (t1,), fails, 1e-12)
+            if kind == 'signed':
+                oq = queried(f.domain, 0.25)
+                f.exp(out=oq)
+                scalar_queries(oq, [math.exp(v) for v in T.values()], 'after exp(out=) into a factor that was queried before', fails)
+                fs = f.copy()
+                for nm in ('sum', 'max', 'logsumexp'):
+                    getattr(fs, nm)()
+                fs.exp(out=fs)
+                scalar_queries(fs, [math.exp(v) for v in T.values()], 'after exp(out=self) on a factor that was queried before', fails)
+                acc.evals += 8
         else:
             got = f.log()
             cmp_tables(got, set(t1), {a: math.log(v) for a, v in T.items()}, 'log on %s' % (t1,), fails, 1e-12)
@@ -324,6 +359,10 @@ def unary_cases(acc, dom, pat, t1, k, names=None):
             if r_ is not o:
                 fails.append('log(out=) did not return out')
             cmp_tables(o, set(t1), {a: math.log(v) for a, v in T.items()}, 'log(out=) on %s' % (t1,), fails, 1e-12)
+            oq = queried(f.domain, 0.25)
+            f.log(out=oq)
+            scalar_queries(oq, [math.log(v) for v in T.values()], 'after log(out=) into a factor that was queried before', fails)
+            acc.evals += 4
         c = f.copy()
         cmp_tables(c, set(t1), T, 'copy on %s' % (t1,), fails)
         if c.values is f.values or np.shares_memory(c.values, f.values):
@@ -331,6 +370,20 @@ def unary_cases(acc, dom, pat, t1, k, names=None):
         o = Factor.zeros(f.domain)
         f.copy(out=o)
         cmp_tables(o, set(t1), T, 'copy(out=) on %s' % (t1,), fails)
+        if kind in ('signed', 'positive'):
+            # call histories on ONE object: query, overwrite (out= / in-place operators / item assignment of the array), query again
+            oq = queried(f.domain, 0.25)
+            f.copy(out=oq)
+            scalar_queries(oq, T.values(), 'after copy(out=) into a factor that was queried before', fails)
+            oq += 1.5
+            scalar_queries(oq, [v + 1.5 for v in T.values()], 'after += 1.5 on a factor that was queried before', fails)
+            oq *= 0.5
+            scalar_queries(oq, [(v + 1.5) * 0.5 for v in T.values()], 'after *= 0.5 on a factor that was queried before', fails)
+            oq += f
+            scalar_queries(oq, [(v + 1.5) * 0.5 + v for v in T.values()], 'after += factor on a factor that was queried before', fails)
+            oq.values[...] = 2.0
+            scalar_queries(oq, [2.0] * len(T), 'after the array was overwritten in place', fails)
+            acc.evals += 20
         # the unary operations on a factor whose array is a strided VIEW (as returned by transpose / project in another order)
         if len(t1) >= 2:
             fv = f.transpose(tuple(reversed(t1)))
